@@ -269,6 +269,7 @@ def env_generator_attrs(ctx: Ctx):
     mcp_membership_width(ctx)
     mtvrp_horizon_guard(ctx)
     mtvrp_windows_ordered(ctx)
+    customer_rows_on_every_path(ctx)
     # C18.f: MTVRP generator -- time windows / service times are times, built from distances through the speed
     from .. import units
     menv = EnvA(ctx.repo, T.ALL_ENVS["MTVRPEnv"], "MTVRPEnv")
@@ -1293,6 +1294,33 @@ def mtvrp_windows_ordered(ctx: Ctx):
             ok = ordered and depot_ok
             why = f"customer windows: end >= start by bound lineage -- {ordered} ({'; '.join(P.trace[-1:]) if not ordered else 'end = start + non-negative length'}); depot window [0, max_time] -- {depot_ok}"
     ctx.ob("C18.r", "MTVRPGenerator.generate_time_windows:ordered", ok, fi.loc, why, construct="MTVRPGenerator.generate_time_windows:ordered")
+
+
+def customer_rows_on_every_path(ctx: Ctx):
+    """C18.s the documented shape `locs: [B, num_loc, 2]` holds on EVERY path of `_generate`: the depot may be drawn by its own
+    sampler or taken from an extra sampled row, and both branches must leave exactly `num_loc` customer rows (symbolic axis
+    sizes, sa/symshape.py: a phi resolves only when all alternatives agree).  Generators for which the engine resolves the row
+    count on today's tree are the confirmed instance set."""
+    from ..symshape import SymShape
+    CONFIRMED = ("TSPGenerator", "CVRPGenerator", "CVRPTWGenerator", "PCTSPGenerator", "PDPGenerator", "MTSPGenerator", "MDCPDPGenerator", "FLPGenerator")
+    seen = set()
+    for cname, path in T.ALL_ENVS.items():
+        env = EnvA(ctx.repo, path, cname)
+        g, gsl = generator_slot(ctx.repo, env.cls)
+        if gsl is None or gsl.td is None or g.name in seen or g.name not in CONFIRMED:
+            continue
+        seen.add(g.name)
+        v = gsl.td.cells.get("locs")
+        if not isinstance(v, vg.S):
+            raise AnalysisError(f"{g.name}._generate: no `locs` key")
+        d = SymShape([]).dim(v, -2)
+        want = nf.poly(vg.mk("selfattr", "num_loc"))
+        ok = d is not None and d == want
+        ctx.ob("C18.s", f"{g.name}._generate:locs-rows", ok, gsl.where,
+               f"rows of `locs` on every path: {d.show(3) if d is not None else 'the paths disagree (or a construction is not understood)'}; documented: self.num_loc",
+               construct=f"{g.name}._generate:locs-rows")
+    if len(seen) < 8:
+        raise AnalysisError(f"only {len(seen)} of the confirmed generators found")
 
 
 def mcp_membership_width(ctx: Ctx):
